@@ -7,13 +7,13 @@ import (
 	"verif/vk"
 )
 
-var kindsA = []string{"set", "set", "reorder", "pop", "pop", "pop", "removeEdge", "removeEdge", "peek", "each", "clear", "drain", "update"}
+var kindsA = []string{"set", "set", "reorder", "reorderTo", "pop", "pop", "pop", "removeEdge", "removeEdge", "peek", "each", "clear", "drain", "update"}
 var kindsB = []string{"addSafe", "addSafe", "addSafe", "addSafe", "addMax", "addMax", "pop", "pop", "removeSafe", "removeSafe", "removeEdge",
 	"set", "reorder", "peek", "each", "clear", "drain", "update"}
 var kindsG = []string{"add", "add", "add", "add", "add", "addMax", "pop", "pop", "pop", "remove", "remove", "remove", "removeEdge",
-	"set", "reorder", "peek", "each", "clear", "drain", "update", "removeElem"}
+	"set", "reorder", "reorderTo", "peek", "each", "clear", "drain", "update", "removeElem"}
 var kindsPos = []string{"add", "add", "add", "add", "addMax", "pop", "pop", "remove", "removeElem", "removeElem", "removeElem", "removeEdge",
-	"set", "reorder", "reorder", "peek", "clear", "update", "update"}
+	"set", "reorder", "reorder", "reorderTo", "reorderTo", "peek", "clear", "update", "update"}
 
 func genVal(t *rapid.T, label string) int {
 	if rapid.Bool().Draw(t, label+"Small") {
